@@ -5,9 +5,17 @@
 //   died  the objects whose destructor ran during this step, with the most derived
 //         destructor that ran
 //   ptr   what every handle slot holds (object id, 0 = empty, -1 = no handle)
+//   mem   what the member handle `next` of every live Derived object holds (-1: none)
 //   same  operator== / != of every pair of same-typed handles
 //   ret   the value returned by the operation
 // Handles live in raw storage: construction and destruction are explicit actions.
+// Derived pointees embed a handle (Ref<Node> next): destroying such an object releases
+// what `next` holds (cascade), and a pool handle can be assigned from the member of the
+// very object it designates (`cur = cur->next`).  With "quarantine": true in the input
+// line the pointee types' operator delete keeps the storage (destructors still run and
+// are logged), so that what the code computes after an early destruction is observed as
+// values; without it the storage is really freed and ASan turns a use-after-free into a
+// crash event.
 // The driver decides nothing.  It refuses (reports {"skipped":true}) actions it
 // cannot legally perform according to its *own* bookkeeping (slot holds a handle or
 // not, static types, object's destructor already ran, explicit references it
@@ -31,6 +39,8 @@ struct DtorEvent
   char part;  // 'D': ~Leaf ran, 'B': ~Node ran
 };
 static std::vector<DtorEvent> g_dtors;
+static bool g_quarantine = false;
+static std::vector<void *> g_quarantined;
 
 // pointee types: Node is the "Base" type, Leaf the "Derived" type of the specification
 struct Node : public rkcommon::memory::RefCount  // RefCount.h alias of RefCountedObject
@@ -39,10 +49,17 @@ struct Node : public rkcommon::memory::RefCount  // RefCount.h alias of RefCount
   long long payload;
   Node(int o_, int inc_) : o(o_), inc(inc_), payload(0x5a5a5a5a) {}
   virtual ~Node() { g_dtors.push_back(DtorEvent{o, inc, 'B'}); payload = 0; }
+  // class-level deallocation (found through the virtual destructor for both pointee types)
+  static void operator delete(void *p)
+  {
+    if (g_quarantine) g_quarantined.push_back(p);
+    else ::operator delete(p);
+  }
 };
 struct Leaf : public Node
 {
   long long more[3];
+  Ref<Node> next;  // the member handle of the specification (m[x])
   Leaf(int o_, int inc_) : Node(o_, inc_) { more[0] = more[1] = more[2] = 7; }
   virtual ~Leaf() { g_dtors.push_back(DtorEvent{o, inc, 'D'}); more[0] = 0; }
 };
@@ -74,10 +91,13 @@ struct World
   std::vector<Slot> slots;  // 1-based
   std::vector<Obj> objs;    // 1-based
   int maxExplicit;
+  bool members;
 
   World(const Json &hist)
   {
     g_dtors.clear();
+    g_quarantine = hist.has("quarantine") && hist["quarantine"].boolean();
+    members = hist.has("members") && hist["members"].boolean();
     std::string st = hist.has("slots") ? hist["slots"].str() : "BBD";
     std::string ot = hist.has("objs") ? hist["objs"].str() : "BD";
     maxExplicit = hist.has("maxexp") ? (int)hist["maxexp"].num() : 1;
@@ -125,6 +145,31 @@ struct World
     Json o = Json::object();
     o.set("skipped", true);
     return o;
+  }
+
+  Leaf *leafOf(int o) { return static_cast<Leaf *>(objs[o].cur); }
+  bool hasMember(int o) const { return members && objs[o].type == 'D'; }
+  // somebody outside the object graph holds a reference to o (driver's own books + what the pool handles hold)
+  bool externallyHeld(int o)
+  {
+    if (objs[o].creatorHeld || objs[o].explicitHeld > 0) return true;
+    for (size_t s2 = 1; s2 < slots.size(); ++s2)
+      if (slots[s2].constructed && rawOf((int)s2) == static_cast<const void *>(objs[o].cur)) return true;
+    return false;
+  }
+  // the live object with a member handle that handle t designates (0: none)
+  int memberOwner(int t)
+  {
+    if (!slots[t].constructed) return 0;
+    long long o = identify(rawOf(t));
+    if (o < 1 || o >= (long long)objs.size() || !hasMember((int)o)) return 0;
+    return (int)o;
+  }
+  // obj(t).next, reached the way user code reaches it: through the handle
+  Ref<Node> &memberThrough(int t)
+  {
+    if (slots[t].type == 'B') return static_cast<Leaf &>(*B(t)).next;
+    return D(t)->next;
   }
 
   // static types allow handle t as a source for handle s
@@ -229,6 +274,24 @@ struct World
       if (slots[s].type == 'B') B((int)s).~HB();
       else D((int)s).~HD();
       slots[s].constructed = false;
+    } else if (a == "SetMember") {
+      if (!okObj(ob) || !alive((int)ob) || !hasMember((int)ob) || !externallyHeld((int)ob) || !okSlot(t) || !slots[t].constructed)
+        return skipped();
+      if (slots[t].type == 'B') leafOf((int)ob)->next = B((int)t);
+      else leafOf((int)ob)->next = D((int)t);  // derived-to-base conversion
+    } else if (a == "ClearMember") {
+      if (!okObj(ob) || !alive((int)ob) || !hasMember((int)ob) || !externallyHeld((int)ob)) return skipped();
+      leafOf((int)ob)->next = nullptr;
+    } else if (a == "CopyCtorFromMember") {
+      if (!okSlot(s) || !okSlot(t) || s == t || slots[s].constructed || slots[s].type != 'B' || !memberOwner((int)t)) return skipped();
+      new (slots[s].mem) HB(memberThrough((int)t));
+      slots[s].constructed = true;
+    } else if (a == "CopyAssignFromMember" || a == "MoveAssignFromMember") {
+      if (!okSlot(s) || !okSlot(t) || !slots[s].constructed || slots[s].type != 'B' || !memberOwner((int)t)) return skipped();
+      HB &dst = B((int)s);
+      Ref<Node> &src = memberThrough((int)t);  // with s == t: cur = cur->next, the source lives inside the object dst designates
+      if (a == "CopyAssignFromMember") dst = src;
+      else dst = std::move(src);
     } else if (a == "Bool") {
       if (!okSlot(s) || !slots[s].constructed) return skipped();
       bool v1, v2;
@@ -308,6 +371,12 @@ struct World
       } else cnt.push(-1);
     }
     o.set("cnt", cnt);
+    Json mem = Json::array();
+    for (size_t ob2 = 1; ob2 < objs.size(); ++ob2) {
+      if (alive((int)ob2) && hasMember((int)ob2)) mem.push(identify(static_cast<const void *>(leafOf((int)ob2)->next.ptr)));
+      else mem.push(-1);
+    }
+    o.set("mem", mem);
     Json ptr = Json::array();
     for (size_t s2 = 1; s2 < slots.size(); ++s2) ptr.push(slots[s2].constructed ? identify(rawOf((int)s2)) : -1LL);
     o.set("ptr", ptr);
